@@ -621,9 +621,9 @@ def run(ctx):
     # ---------------- mc: all TLC runs of the models, concurrently ------------------------------------------------
     base = dict(mutant="", depth=2, bools="FALSE", sim="TRUE", extra="")
     if th:
-        builders = [("cases-w2", dict(base, leafw="0,1,2", k=1, bools="TRUE"), 1),
+        builders = [("cases-w2", dict(base, leafw="0,1,2", k=1), 2),
                     ("cases-w3", dict(base, leafw="0,1,2,3", k=1, sim="FALSE", extra="INVARIANT ExpIsEval"), 0),
-                    ("cases-w3-sim", dict(base, leafw="0,3", k=0), 2)]
+                    ("cases-w3-sim", dict(base, leafw="0,3", k=0, bools="TRUE"), 2)]
     else:
         builders = [("cases-w2", dict(base, leafw="0,1,2", k=0, bools="TRUE"), 6),
                     ("cases-k1", dict(base, leafw="2", k=1, sim="FALSE", extra="INVARIANT ExpIsEval"), 0)]
@@ -668,13 +668,13 @@ def run(ctx):
             tour_jobs.append((tuple(s0["inv"]), s0["bdir"], pdir, w, steps))
         os.unlink(dot + ".dot")
     # ---------------- random: long runs on sampled and wider ports; netlist: real ports ---------------------------
-    progs = gen_programs(ctx.rng, 400 if th else 40, 3, 3) + gen_programs(ctx.rng, 150 if th else 20)
+    progs = gen_programs(ctx.rng, 300 if th else 40, 3, 3) + gen_programs(ctx.rng, 100 if th else 20)
     rjobs = []
     for prog in progs:
         for kind in ("comb", "ff", "ffsync"):
             for bdir in ("i", "o", "io"):
                 rjobs.append((prog, kind, bdir, 60 if th else 30, ctx.rng.getrandbits(48)))
-    nprogs = gen_programs(ctx.rng, 1500 if th else 80, 3, 3) + gen_programs(ctx.rng, 60 if th else 20)
+    nprogs = gen_programs(ctx.rng, 600 if th else 80, 3, 3) + gen_programs(ctx.rng, 60 if th else 20)
     njobs = [(prog, cls, kind, bdir) for prog in nprogs for cls in ("se", "diff") for kind, bdir in COMBOS]
     t0 = time.time()
     alljobs = [("tour", j) for j in tour_jobs] + [("random", j) for j in rjobs] + [("net", j) for j in njobs]
